@@ -59,17 +59,48 @@ ASSUMPTIONS = [
 
 # ---------------------------------------------------------------------------------
 def pattern_source():
-    """text of the pattern and of the flags argument of the re.search call in get_cursor_position"""
-    src = textwrap.dedent(inspect.getsource(CursorAwareWindow.get_cursor_position))
-    found = []
-    for node in ast.walk(ast.parse(src)):
-        if isinstance(node, ast.Call) and isinstance(node.func, ast.Attribute) and node.func.attr in (
-                "search", "match", "fullmatch", "finditer", "findall", "compile"):
-            pat = ast.literal_eval(node.args[0])
-            flags = " ".join(ast.unparse(a) for a in node.args[2:]) + " ".join(
-                "%s=%s" % (k.arg, ast.unparse(k.value)) for k in node.keywords)
-            found.append("%s.%s %s" % (node.func.attr, pat, flags) if node.func.attr != "search" else "%s %s" % (pat, flags))
-    return "|".join(found)
+    """the pattern and flags that get_cursor_position hands to the re module, OBSERVED while it runs (the re module
+    seen by curtsies.window is replaced by a recorder for one scripted query) -- however the source spells or
+    builds them; comments, formatting and rewrites around the call do not matter.  A pattern compiled at module
+    level would not go through the recorder: such objects are listed too."""
+    import curtsies.window as cw
+
+    class Recorder:
+        def __init__(self, real):
+            self._real = real
+            self.calls = []
+
+        def __getattr__(self, name):
+            v = getattr(self._real, name)
+            if name not in ("search", "match", "fullmatch", "finditer", "findall", "compile"):
+                return v
+
+            def f(pattern, *a, **k):
+                flags = k.get("flags", 0)
+                pos = 0 if name == "compile" else 1
+                if len(a) > pos:
+                    flags = a[pos]
+                pat = pattern if isinstance(pattern, str) else pattern.pattern
+                fl = "re.DOTALL" if flags == re.DOTALL else "flags=%d" % int(flags)
+                self.calls.append("%s %s" % (pat, fl) if name == "search" else "%s.%s %s" % (name, pat, fl))
+                return v(pattern, *a, **k)
+            return f
+
+    rec = Recorder(cw.re)
+    real = cw.re
+    cw.re = rec
+    try:
+        drive([["pos", True, [ord(c) for c in "\x1b[2;3R"]]])
+    finally:
+        cw.re = real
+    seen = []
+    for c in rec.calls:                  # the same call for every character read
+        if c not in seen:
+            seen.append(c)
+    for name, v in sorted(vars(cw).items()):
+        if isinstance(v, re.Pattern):
+            seen.append("compiled:%s %s flags=%d" % (name, v.pattern, v.flags))
+    return "|".join(seen)
 
 
 class FakeTerm(blessed.Terminal):
